@@ -272,6 +272,10 @@ LifeWant(acc, ev) ==
     [] ev.op = "dsm"       -> PAdd(PMulG(s), PMul(t, acc))
     [] ev.op = "dsm_from"  -> PAdd(PMulG(s), PMul(t, src))
     [] ev.op \in {"setbytes", "setbytes_bad", "setbytes_id"} -> LET d == DecodeB(HexToBytes(ev.bytes)) IN IF d[1] = "ok" THEN d[2] ELSE acc
+    [] ev.op = "add_from"  -> PAdd(src, src)
+    [] ev.op = "sub_from"  -> PSub(src, GenPt)
+    [] ev.op = "csel_from" -> IF ev.ctrl = 0 THEN src ELSE GenPt
+    [] ev.op = "msm_from"  -> PAdd(PMul(s, src), PMul(t, src))
     [] ev.op = "msm1"      -> PMul(s, acc)
     [] ev.op = "msmv"      -> PAdd(PMul(s, acc), PMul(t, src))
 LifeObsOK(ev, want) ==
